@@ -136,6 +136,9 @@ package hpack
 //@   ensures [C18:dynamic-index-newest-first] 61 < i && i <= 61 + len(d.dynTab.table.ents) ==> ok && hf == d.dynTab.table.ents[len(d.dynTab.table.ents) - (i - 61)]
 //@   ensures [C18:index-beyond-tables-invalid] i > 61 + len(d.dynTab.table.ents) ==> !ok
 
+//@ -- value of the continuation groups at the front of q (RFC 7541 5.1): 7 bits per octet, least significant group
+//@ -- first, the octet without the top bit ends the integer
+//@ pure func dvalT(q seq[byte]) int = ite(len(q) == 0, 0, ite(q[0] < 128, q[0], q[0] % 128 + 128 * dvalT(q[1:])))
 //@ func readVarInt :: n, p -> i, remain, err
 //@   props C18,C10
 //@   requires [C18:prefix-size-valid] 1 <= n && n <= 8
@@ -145,6 +148,9 @@ package hpack
 //@   ensures [C18:integer-ends-at-first-byte-without-continuation-bit] err == nil && len(p) - len(remain) >= 2 ==> p[len(p) - len(remain) - 1] < 128 && (forall j int :: 1 <= j && j < len(p) - len(remain) - 1 ==> p[j] >= 128)
 //@   ensures [C18:need-more-only-when-truncated] err == errNeedMore ==> len(p) <= 9 && (forall j int :: 1 <= j && j < len(p) ==> p[j] >= 128)
 //@   ensures [C18:overlong-integer-rejected] err != nil && err != errNeedMore ==> len(p) >= 10 && (forall j int :: 1 <= j && j < 10 ==> p[j] >= 128)
+//@   ensures [C18:integer-value-short-form] err == nil && len(p) - len(remain) == 1 ==> i == p[0] % pow2(n) && i < pow2(n) - 1
+//@   ensures [C18:integer-value-long-form] err == nil && len(p) - len(remain) >= 2 ==> p[0] % pow2(n) == pow2(n) - 1 && i == pow2(n) - 1 + dvalT(p[1:])
+//@   loop 1 invariant origP[0] % pow2(n) == pow2(n) - 1 && 0 <= i - (pow2(n) - 1) && i - (pow2(n) - 1) < pow2(m) && (i - (pow2(n) - 1)) + pow2(m) * dvalT(p#1) == dvalT(origP[1:])
 //@   loop 1 invariant origP == old(p) && len(p#1) < len(origP) && p#1 == origP[len(origP) - len(p#1):] && m == 7 * (len(origP) - len(p#1) - 1) && m < 63 && (forall j int :: 1 <= j && j < len(origP) - len(p#1) ==> origP[j] >= 128)
 
 //@ func (*Decoder).readString :: d, p -> u, remain, err
@@ -272,12 +278,18 @@ package hpack
 //@   assigns nothing
 //@   ensures [C18:representation-type-bits] b == ite(sensitive, 16, ite(indexing, 64, 0))
 
+//@ pure func vgroups(r int) seq[byte] = ite(r < 128, seq[byte]{r}, seq[byte]{128 + r % 128} ++ vgroups(r / 128))
+//@ pure func venc(n int, i int) seq[byte] = ite(i < pow2(n) - 1, seq[byte]{i}, seq[byte]{pow2(n) - 1} ++ vgroups(i - (pow2(n) - 1)))
+//@ lemma [C18:continuation-groups-decode-to-the-encoded-value] rtGroups(r int, rest seq[byte]) induction r from 0 = 0 <= r ==> dvalT(vgroups(r) ++ rest) == r
+//@ lemma [C18:integer-round-trip] rtVarint(n int, i int, rest seq[byte]) using rtGroups = 1 <= n && n <= 8 && 0 <= i ==> (i < pow2(n) - 1 ==> (venc(n, i) ++ rest)[0] % pow2(n) == i) && (i >= pow2(n) - 1 ==> (venc(n, i) ++ rest)[0] % pow2(n) == pow2(n) - 1 && pow2(n) - 1 + dvalT((venc(n, i) ++ rest)[1:]) == i)
 //@ func appendVarInt :: dst, n, i -> out
 //@   props C18,C10
 //@   requires 1 <= n && n <= 8
 //@   assigns nothing
 //@   ensures [C18:integer-appended-after-existing-bytes] len(out) > len(dst) && out[:len(dst)] == dst
+//@   ensures [C18:integer-wire-image] out == dst ++ venc(n, i)
 //@   loop 1 invariant len(dst#1) > len(old(dst)) && dst#1[:len(old(dst))] == old(dst)
+//@   loop 1 invariant old(i) >= pow2(n) - 1 && i#1 >= 0 && dst#1 ++ vgroups(i#1) == old(dst) ++ seq[byte]{pow2(n) - 1} ++ vgroups(old(i) - (pow2(n) - 1))
 
 //@ func appendTableSize :: dst, v -> out
 //@   props C18,C10
